@@ -363,7 +363,7 @@ pub fn run(p: &Params, rep: &mut Report) {
         "id -> IRI: IRIs are kept, other ids get the configured prefix and space, tab, newline, quote become '-' (the documented transformation)".into(),
         "targets pointing at annotations without public id, and several data values for one predicate, are not judged".into(),
     ];
-    let total: u64 = if p.thorough { 6000 } else { 200 };
+    let total: u64 = if p.thorough { 6000 } else { 3000 };
     for k in p.cases(total) {
         rep.current_case = p.case_coord(k);
         rep.cases += 1;
